@@ -279,6 +279,40 @@ pub fn spaces(tier: Tier) -> Vec<Space<'static>> {
         crate::laws::check_total_preorder(&m, n, acc, "order-laws", &|i| format!("{:?}", b64[i]));
         acc.evals((n * n) as u64);
     }));
+    sp.push(Space::new("views-and-order: 2^k + every 13-bit offset, k=52..=63", 12 * 8192, |i, acc| {
+        let k = 52 + (i / 8192) as u32;
+        let d = i % 8192;
+        let v: u128 = (1u128 << k) + d as u128;
+        if v > u64::MAX as u128 {
+            return;
+        }
+        let mut cands = vec![RNum::U(v as u64)];
+        if v <= i64::MAX as u128 {
+            cands.push(RNum::I(v as i64));
+            cands.push(RNum::I(-(v as i64)));
+        }
+        if k == 63 {
+            // also count down from 2^64
+            cands.push(RNum::U(u64::MAX - d));
+        }
+        for n in cands {
+            acc.eval();
+            acc.nontrivial += 1;
+            let num = to_num(&n);
+            views_one(n, &num, acc);
+            // against its own float image and the neighbours of that image
+            let f0 = num.as_f64().unwrap_or(0.0);
+            for f in [refmodel::val::next_down(f0), f0, refmodel::val::next_up(f0)] {
+                let b = RNum::f(f);
+                let nb = to_num(&b);
+                let exp = num_cmp(&n, &b);
+                match guard(|| (num.cmp(&nb), nb.cmp(&num), num == nb)) {
+                    Ok((c, r, e)) if c == exp && r == exp.reverse() && e == (exp == Ordering::Equal) => {}
+                    other => acc.vio("order:int-vs-float-cmp-differs-from-exact-value", || json!({"a": format!("{:?}", n), "b": format!("{:?}", b), "expected": format!("{:?}", exp), "observed": format!("{:?}", other)})),
+                }
+            }
+        }
+    }));
     if tier.thorough() {
         // four complete 2^32 sub-universes, in blocks of 2^16
         sp.push(Space::new("codec-all-u32", 1 << 16, |b, acc| {
